@@ -1166,8 +1166,9 @@ fn derive_dot_expression(
                                 }));
                             }
                             // A candidate can be a set of candidates itself,
-                            // a select that yields an unknown tuple for one.
-                            Shape::Narrowed(_) => {
+                            // a select that yields an unknown tuple for one,
+                            // or an import.
+                            Shape::Narrowed(_) | Shape::Import(_) => {
                                 let nested =
                                     derive_dot_expression(pos, t, right_expr, symbol_table);
                                 if !matches!(nested, Shape::TypeErr(_, _)) {
